@@ -286,6 +286,65 @@ def check_source(desc, proto, max_in, max_out, as_kind):
                 b.name = "c18_tmp_name"
                 a.name = na
                 b.name = nb
+    # extract - edit inside a control-flow body (same node count) - extract again: what a body captures is read off
+    # the source as it is NOW, and so is the implicit-usage analysis
+    if as_kind == "graph" and not found:
+        own = {id(n) for n in main}
+        host_of = {}
+        for top in main:
+            for a in top.attributes.values():
+                if a.is_ref():
+                    continue
+                subs = [a.as_graph()] if a.type == ir.AttributeType.GRAPH else list(a.as_graphs()) if a.type == ir.AttributeType.GRAPHS else []
+                for sg in subs:
+                    for bn in ir.traversal.RecursiveGraphIterator(sg):
+                        host_of[id(bn)] = top
+        nested = [bn for bn in main.all_nodes() if id(bn) not in own]
+        cover = [v for v in list(main.inputs) + list(main.initializers.values())]
+        for bn in nested:
+            top = host_of.get(id(bn))
+            if top is None or not top.outputs or not top.outputs[0].name:
+                continue
+            for idx, cur in enumerate(bn.inputs):
+                if cur is None or cur.graph is not main:
+                    continue
+                order = {id(n_): k for k, n_ in enumerate(main)}
+                for w in values:
+                    if w is cur or w.type != cur.type or w.producer() is top:
+                        continue
+                    if w.producer() is not None and order.get(id(w.producer()), 10**9) >= order[id(top)]:
+                        continue  # only values available before the host node: the edited source stays a valid graph
+                    outs = [top.outputs[0]]
+                    try:
+                        ir_conv.extract(src, cover, outs)  # warm whatever the implementation keeps between calls
+                    except Exception:  # noqa: BLE001
+                        pass
+                    bn.replace_input_with(idx, w)
+                    try:
+                        n_cuts += 1
+                        cut = ([v.name for v in cover], [o.name for o in outs], f"after_body_edit[{bn.name}.inputs[{idx}]:{cur.name}->{w.name}]")
+                        ref_nodes, ref_inits, uncovered = reference_region(main, cover, outs)
+                        try:
+                            res = ir_conv.extract(src, cover, outs)
+                            exc = None
+                        except Exception as e:  # noqa: BLE001
+                            res, exc = None, e
+                        if uncovered:
+                            if exc is None:
+                                bad("uncovered_requirement_did_not_raise", [v.name for v in uncovered], cut)
+                        elif exc is not None:
+                            bad("bounded_region_rejected_after_body_edit", f"{type(exc).__name__}: {exc}"[:160], cut)
+                        elif [n.name for n in res] != [n.name for n in ref_nodes]:
+                            bad("region_computed_from_an_earlier_state_of_a_body", ([n.name for n in res], [n.name for n in ref_nodes]), cut)
+                        try:
+                            got = ir.analysis.analyze_implicit_usage(main)
+                            want = brute_force_implicit(main)
+                            if {g.name: {v.name for v in s_} for g, s_ in got.items()} != {g.name: {v.name for v in s_} for g, s_ in want.items()}:
+                                bad("implicit_usage_differs_from_brute_force_after_body_edit", ({g.name: sorted(v.name for v in s_) for g, s_ in got.items()}, {g.name: sorted(v.name for v in s_) for g, s_ in want.items()}), cut)
+                        except Exception as e:  # noqa: BLE001
+                            bad("implicit_usage_raises", f"{type(e).__name__}: {e}"[:120], cut)
+                    finally:
+                        bn.replace_input_with(idx, cur)
     return n_cuts, n_raised, found
 
 
